@@ -2,7 +2,7 @@
 *every* step of every run; the protocol recognisers of the Lean model (ledger, step ordering,
 WFHistory, notification automaton) are run over what the engine did."""
 import json, copy
-import common, explore, enginerun, machgen, fanproto
+import common, explore, enginerun, machgen, fanproto, framecmp
 from common import cj, pj
 from machgen import FN, ARN
 
@@ -320,12 +320,14 @@ class Monitor(object):
         self.last_hist_len = 0
         self.step_no = 0
         self.acked_ids = set()
+        self.rec = framecmp.Recorder()     # the frames per step with their messages (C03.frames_match_reference)
 
     def tagcode(self, fr):
         return fr.get("ch", 0) * 100000 + fr["tag"]
 
     def __call__(self, s, ea, step):
         self.step_no += 1
+        self.rec(s, ea, step)
         log = s.broker.log
         cur = []
         engine_conns = {i.conn.ident for i in s.instances if i.alive and i.conn is not None}
@@ -460,6 +462,14 @@ class Monitor(object):
                 self.problems.append(("C03.drained", leaks))
 
 
+def frames_law(chk, machine, mo, rec):
+    """C03.frames_match_reference: the engine's frames, handler step by handler step, against the steps Asl.run predicts"""
+    mode, fp, nst = framecmp.compare(mo, rec.steps, rec.start, framecmp.fan_entered(machine, mo))
+    chk.dist("frames_vs_reference.%s" % mode)
+    chk.dist("frames_vs_reference.%s.steps" % mode, nst)
+    return [("C03.frames_match_reference", {"mode": mode, "differences": fp})] if fp else []
+
+
 def hist_line(hist):
     evs = []
     for e in hist:
@@ -580,6 +590,8 @@ def run_property(chk, prop, laws, quick_gen=300, thorough_gen=4000, scns=None, n
             want_hist = "C09" in laws and speaks and scn.sm_type == "STANDARD"
             # C11.notifications_match_reference: the same runs (EXPRESS ones too: they are notified like any other)
             want_notes = "C11" in laws and speaks
+            # C03.frames_match_reference: the canonical ones of those runs (the prediction is that of the canonical schedule)
+            want_frames = "C03" in laws and speaks and kind == "canonical"
             ab = None
             if tracer is not None:
                 try:
@@ -593,7 +605,8 @@ def run_property(chk, prop, laws, quick_gen=300, thorough_gen=4000, scns=None, n
                                           [q["t"] for q in s.rpc_requests]) if want_hist else None,
                                  "notes": [n["detail"] for n in mon.notes] if want_notes else None,
                                  "mline": (__import__("props.c01", fromlist=["x"]).model_line(scn.machine, scn.data, ea, pl.oracle())
-                                           if (pl is not None and (expect is not None or (skip_multi and not hand) or want_hist or want_notes)) else None),
+                                           if (pl is not None and (expect is not None or (skip_multi and not hand) or want_hist or want_notes or want_frames)) else None),
+                                 "frames": mon.rec if want_frames else None,
                                  "pre": expect.pre(scn, s, ea, pl, fv) if expect is not None else None, "scn": scn, "fv": fv})
             # Lean recognisers over what the engine did
             if scn.sm_type == "STANDARD":
@@ -648,6 +661,8 @@ def run_property(chk, prop, laws, quick_gen=300, thorough_gen=4000, scns=None, n
             chk.dist("notifications_vs_reference.%s.%s" % (pr["kind"], nmode))
             if np_:
                 probs = probs + [("C11.notifications_match_reference", {"differences": np_})]
+        if pr.get("frames") is not None and mo is not None:
+            probs = probs + frames_law(chk, pr["case"]["machine"], mo, pr["frames"])
         seen = set()
         for law, detail in probs:
             if not any(law.startswith(l) for l in laws) or law in seen:
@@ -702,7 +717,14 @@ def run_property(chk, prop, laws, quick_gen=300, thorough_gen=4000, scns=None, n
                        "Asl.run predicts under every explored schedule — as sequences without fan-outs, as multisets with fan-outs "
                        "none of which failed, inclusion of the Execution… / StateExited / LambdaFunctionSucceeded events otherwise; "
                        "C11.notifications_match_reference: the status notifications (statuses in order, input / output / error "
-                       "payload) against the model's"
+                       "payload) against the model's; C03.frames_match_reference (canonical runs of those executions): the broker "
+                       "frames of the engine connection handler step by handler step — deliver / publish (event with its state and "
+                       "branch, task request, notification) / ack, each with the message it concerns (matched by address: state, "
+                       "branch indices, occurrence; request by its event, reply by its request), at their instants — against the "
+                       "steps Asl.run predicts (harness/framecmp.py): as sequences without fan-outs, per instant as multisets of "
+                       "steps with fan-outs none of which failed, per instant as multisets of frames when two unlike branches "
+                       "complete a join at the same instant, counts + the engine's own ledger when a fan-out failed "
+                       "(frames_vs_reference.* in the distribution)"
                        % n_rand)
 
 
